@@ -135,7 +135,12 @@ class DegreeAnalysis:
                 v = self.ev(f, s.value, env) if s.value is not None else LIT
                 result = v if result is None else self._join(result, v, s)
                 return result
-            if isinstance(s, ast.Assign):
+            if isinstance(s, ast.Assign) and len(s.targets) == 1 and isinstance(s.targets[0], (ast.Tuple, ast.List)) and isinstance(s.value, (ast.Tuple, ast.List)) \
+                    and len(s.targets[0].elts) == len(s.value.elts) and all(isinstance(t_, ast.Name) for t_ in s.targets[0].elts):
+                vals = [self.ev(f, e_, env) for e_ in s.value.elts]        # a, b = x, y : element-wise (all evaluated first)
+                for t_, v_ in zip(s.targets[0].elts, vals):
+                    env[t_.id] = v_
+            elif isinstance(s, ast.Assign):
                 v = self.ev(f, s.value, env)
                 for t in s.targets:
                     if isinstance(t, ast.Name):
